@@ -26,6 +26,7 @@ theorem instance_expr_ok :
     okNode (mixedChannel exRefs "label".toList "x instance('l')/root/item[name = ${a}]/label y ${b2}".toList) =
       some (.elem "label".toList []
         [txt "x ", outp "instance('l')/root/item[name =  /data/a ]/label", txt " y ", outp " /data/g/b2 "]) := by
+  rw [mixedChannel_pinned]
   decide +kernel
 
 /-- **F15**: ` and ${a}` after the path is swallowed into the output's value (demanded:
@@ -34,6 +35,7 @@ theorem F15_witness :
     okNode (mixedChannel exRefs "label".toList "instance('l')/root/item[name = 'c1']/label and ${a} tail".toList) =
       some (.elem "label".toList []
         [outp "instance('l')/root/item[name = 'c1']/label and  /data/a ", txt " tail"]) := by
+  rw [mixedChannel_pinned]
   decide +kernel
 
 /-- **F39**: the expression is escaped twice; the reader finds `&lt;` where `<` was typed -/
@@ -41,12 +43,14 @@ theorem F39_witness :
     okNode (mixedChannel exRefs "label".toList "x instance('l')/root/item[name < 3]/label y".toList) =
       some (.elem "label".toList []
         [txt "x ", outp "instance('l')/root/item[name &lt; 3]/label", txt " y"]) := by
+  rw [mixedChannel_pinned]
   decide +kernel
 
 /-- **F40**: a quote before the expression hides it from `find_boundaries`: no output at all -/
 theorem F40_witness :
     okNode (mixedChannel exRefs "label".toList "it's instance('l')/root/item[name = 1]/label".toList) =
       some (nodeText "label".toList "it's instance('l')/root/item[name = 1]/label".toList) := by
+  rw [mixedChannel_pinned]
   decide +kernel
 
 /-- the boundaries themselves, for the F15 input: ONE expression spanning up to the end of ` /data/a`'s
@@ -54,6 +58,8 @@ theorem F40_witness :
 theorem F15_boundaries :
     (Lexer.parseExpression "instance('l')/root/item[name = 'c1']/label and ${a} tail".toList).map
       (fun r => findBoundaries r.1) = some [(0, 51)] := by
+  unfold Lexer.parseExpression
+  rw [activeRules_pinned]
   decide +kernel
 
 
